@@ -344,6 +344,39 @@ where
         buf.push_sync(&tag);
     }
 
+    /// Native twin of `hydrate` below: identical walk, but the `$$on_hydrate` callback is
+    /// stored in the native DOM instead of being set as a JS property.
+    #[cfg(leptos_verif)]
+    fn hydrate<const FROM_SERVER: bool>(
+        self,
+        cursor: &Cursor,
+        position: &PositionState,
+    ) -> Self::State {
+        let curr_position = position.get();
+        if curr_position == Position::FirstChild {
+            cursor.child();
+        } else if curr_position != Position::Current {
+            cursor.sibling();
+        }
+
+        if let Some(on_hydrate) = self.on_hydrate {
+            use crate::{
+                hydration::failed_to_cast_element, renderer::CastFrom,
+            };
+
+            let el =
+                crate::renderer::types::Element::cast_from(cursor.current())
+                    .unwrap_or_else(|| {
+                        failed_to_cast_element(
+                            "leptos-children",
+                            cursor.current(),
+                        )
+                    });
+            crate::renderer::native_dom::island_on_hydrate(&el, on_hydrate);
+        }
+    }
+
+    #[cfg(not(leptos_verif))]
     fn hydrate<const FROM_SERVER: bool>(
         self,
         cursor: &Cursor,
